@@ -277,8 +277,8 @@ func (x *Exec) run() {
 		}
 	}
 	for _, gp := range sortedKeys(fin.vars) {
-		if !strings.HasPrefix(gp, "ghost:g_M") || mentioned[strings.TrimPrefix(gp, "ghost:")] {
-			continue
+		if !strings.HasPrefix(gp, "ghost:g_M") || mentioned[strings.TrimPrefix(gp, "ghost:")] || ct.Lemma {
+			continue // (lemma functions are never called: their ghost frame is irrelevant)
 		}
 		if !sameValue(fin.vars[gp], pre.vars[gp]) {
 			pv, _ := pre.vars[gp].(Scalar)
